@@ -1,12 +1,12 @@
 #!/bin/bash
-# usage: tools/try_mutant_scratch.sh <seeded-id> <property-id>...
+# usage: tools/try_mutant_scratch.sh <seeded-id> <property-id>...      (PATCH_DIR=/verif/benign for the behaviour-preserving corpus)
 # Like try_mutant.sh, but leaves /repo alone: the patch is applied in a scratch worktree (/tmp/mutrepo-$$) and the checks
 # read the library from there (VERIF_REPO for the symbolic loader, PYTHONPATH for the replay import). For use while
 # other runs need /repo unchanged. The worktree is removed afterwards.
 id=$1; shift
 WT=/tmp/mutrepo-$$
 git -C /repo worktree add --detach $WT HEAD -q || exit 2
-if ! git -C $WT apply /verif/seeded/$id/patch.diff 2>/tmp/apply.err; then echo "$id APPLY-FAIL $(head -1 /tmp/apply.err)"; git -C /repo worktree remove --force $WT; exit 2; fi
+if ! git -C $WT apply ${PATCH_DIR:-/verif/seeded}/$id/patch.diff 2>/tmp/apply.err; then echo "$id APPLY-FAIL $(head -1 /tmp/apply.err)"; git -C /repo worktree remove --force $WT; exit 2; fi
 cd /verif
 for p in "$@"; do
   out=$(VERIF_REPO=$WT PYTHONPATH=$WT timeout ${MUT_TIMEOUT:-1500} ./check $p --no-evidence ${MUT_ARGS} 2>&1); rc=$?
